@@ -50,7 +50,7 @@ pub struct Naming {
     next_unknown: S,
 }
 
-pub const NAMING_KINDS: u32 = 9;
+pub const NAMING_KINDS: u32 = 10;
 pub const UNKNOWN_BASE: S = 500_000;
 
 impl Naming {
@@ -98,6 +98,16 @@ impl Naming {
             // names of the crate's own fresh-slot form, created lazily: each one is spelled for the
             // first time right before the insertion that uses it, far above the fresh counter
             8 => Slot::named(&format!("f{}", 1000 + s * 53)),
+            // the slots that rules spell (pattern slots 90..99) get the names of the first internal
+            // class slots ($f1, $f3, ..): a rule may legally mention such a name, and it then denotes
+            // the very slot the e-graph uses inside some class; everything else is textual
+            9 => {
+                if (90..100).contains(&s) {
+                    Slot::named(&format!("f{}", 2 * (s - 90) + 1))
+                } else {
+                    Slot::named(&format!("a{:07}", s))
+                }
+            }
             k => panic!("unknown naming {k}"),
         }
     }
